@@ -334,6 +334,9 @@ class PeriodicTable(object):
                 isotope = int(parts[0])
             except Exception:
                 isotope = -1
+            if isotope == 0:
+                # "0-Fe" names no isotope; isotope == 0 means "no isotope requested" below
+                isotope = -1
             symbol = parts[1]
         else:
             symbol = ''
